@@ -93,6 +93,86 @@ fn calculate_lz13_header(bytes: &[u8]) -> Result<usize> {
     Ok((max_lead + buffer_length).0 as usize)
 }
 
+/// nintendo-lz copies from `out[out.len() - displacement - 1..]` without checking that the
+/// back-reference stays inside the data produced so far, and panics when it does not. Walk the
+/// tokens of an LZ10/LZ11 stream first; returns false if a reference reaches before the start
+/// of the output. Anything else that is wrong with the stream (unknown type, truncation) is left
+/// for the decoder to report.
+pub(crate) fn back_references_in_bounds(bytes: &[u8]) -> bool {
+    if bytes.len() < 4 {
+        return true;
+    }
+    let lz11 = match bytes[0] {
+        0x10 => false,
+        0x11 => true,
+        _ => return true,
+    };
+    let mut length = bytes[1] as usize | (bytes[2] as usize) << 8 | (bytes[3] as usize) << 16;
+    let mut pos = 4;
+    if length == 0 && lz11 {
+        if bytes.len() < 8 {
+            return true;
+        }
+        length = u32::from_le_bytes([bytes[4], bytes[5], bytes[6], bytes[7]]) as usize;
+        pos = 8;
+    }
+    let at = |index: usize| bytes.get(index).map(|b| *b as usize);
+    let mut produced: usize = 0;
+    while produced < length {
+        let flags = match at(pos) {
+            Some(flags) => flags,
+            None => return true,
+        };
+        pos += 1;
+        for bit in (0..8).rev() {
+            if produced >= length {
+                break;
+            }
+            if (flags >> bit) & 1 == 0 {
+                if pos >= bytes.len() {
+                    return true;
+                }
+                pos += 1;
+                produced += 1;
+                continue;
+            }
+            let (b0, b1) = match (at(pos), at(pos + 1)) {
+                (Some(b0), Some(b1)) => (b0, b1),
+                _ => return true,
+            };
+            let (count, displacement, used) = if !lz11 {
+                ((b0 >> 4) + 3, ((b0 & 0xF) << 8) | b1, 2)
+            } else {
+                match b0 >> 4 {
+                    0 => match at(pos + 2) {
+                        Some(b2) => (
+                            (((b0 & 0xF) << 4) | (b1 >> 4)) + 0x11,
+                            ((b1 & 0xF) << 8) | b2,
+                            3,
+                        ),
+                        None => return true,
+                    },
+                    1 => match (at(pos + 2), at(pos + 3)) {
+                        (Some(b2), Some(b3)) => (
+                            (((b0 & 0xF) << 12) | (b1 << 4) | (b2 >> 4)) + 0x111,
+                            ((b2 & 0xF) << 8) | b3,
+                            4,
+                        ),
+                        _ => return true,
+                    },
+                    indicator => (indicator + 1, ((b0 & 0xF) << 8) | b1, 2),
+                }
+            };
+            if displacement + 1 > produced {
+                return false;
+            }
+            pos += used;
+            produced += count;
+        }
+    }
+    true
+}
+
 #[derive(Debug, Clone)]
 pub struct LZ13CompressionFormat;
 
@@ -182,7 +262,9 @@ impl LZ13CompressionFormat {
             Ok(result)
         } else {
             let truncated_input = if bytes[0] == 0x13 { &bytes[4..] } else { bytes };
-
+            if !back_references_in_bounds(truncated_input) {
+                return Err(CompressionError::InvalidInput("LZ13".to_string()));
+            }
             match decompress_arr(truncated_input) {
                 Ok(decompressed_data) => Ok(decompressed_data),
                 Err(_) => Err(CompressionError::InvalidInput("LZ13".to_string())),
